@@ -539,10 +539,13 @@ def run_binding(ctx, rng, tier, res, edge_vecs, layouts, mc_futs):
     vec_of = {i + 1: v for i, v in enumerate(edge_vecs)}
     for cid in hangs[:2]:
         by2, _ = run_go(ctx, [case_of[cid]], "hang%d" % cid, wd_ms=60000)
-        if any(r["k"] == "hang" for r in by2[cid]):
-            last = [r for r in by2[cid] if r["k"] in ("edge", "op")][-1:]
-            ctx.disagreement(None, {"kind": "hang", "case": _replay_case(cid, vec_of, desc_of, ctx.seed), "after": last},
-                             "a call did not return within 60 s when re-run alone (case %d, after %s)" % (cid, json.dumps(last)[:300]))
+        h2 = [r for r in by2[cid] if r["k"] == "hang"]
+        if h2:
+            c = case_of[cid]
+            ctx.disagreement(None, {"kind": "hang", "case": _replay_case(cid, vec_of, desc_of, ctx.seed), "call": h2[0].get("call"),
+                                    "after_records": h2[0]["after_records"]},
+                             "%s did not return within 60 s when the case was re-run alone (%s level, files with %s lines)" % (
+                                 h2[0].get("call"), c["level"], [len(f["ts"]) for f in c["files"]]))
         else:
             ctx.notes.append("case %d exceeded the 10 s watchdog once, returned in isolation" % cid)
     for cid in panics[:5]:
